@@ -827,3 +827,52 @@ example : ∃ s g, AL.get? (C02.runCmds [] demoD) 0 = some s ∧ directedLineGra
         exfalso; simp [distV, i10] at hle; norm_num at hle
   obtain ⟨g, hg⟩ := key _ _ rfl rfl (by decide)
   exact ⟨_, g, rfl, hg⟩
+
+/-! ## float thresholds (strengthening round e)
+
+The code computes the Jaccard similarity as the ROUNDED quotient `fl (i / u)` (a float) and compares it with the
+threshold the caller hands in, which is a float too; the theorems above speak of the exact quotient and a rational `s`.
+The two lemmas below are the reduction the harness uses (`model_threshold` in `harness/c10.py`) to hand a float
+threshold to the model; they hold for ANY monotone rounding `fl` (IEEE round-to-nearest is one; that is TRUSTED[0]):
+* a threshold that IS the float of a ratio `q` (`s = 0.2`, `s = 1/3`) accepts exactly the ratios `w ≥ q`, provided the
+  rounding keeps the ratios that can occur (`A`: quotients of integers ≤ 12) apart,
+* any other float threshold `s` (one ulp above `3/5`, `3 * 0.2`, `0.5 * (1 + 1e-10)`), which is the float of no ratio
+  that occurs, accepts exactly the ratios `w ≥ s` with `s` read as the exact dyadic rational.
+In both cases no tolerance is involved: a pair whose similarity is below the threshold by one ulp is not joined. -/
+
+/-- threshold = the float of a ratio that can occur -/
+theorem C10_threshold_on_rounded_value (fl : Rat → Rat) (mono : ∀ a b, a ≤ b → fl a ≤ fl b)
+    (A : Rat → Prop) (inj : ∀ a b, A a → A b → fl a = fl b → a = b) (w q : Rat) (hw : A w) (hq : A q) :
+    fl q ≤ fl w ↔ q ≤ w := by
+  constructor
+  · intro h
+    rcases lt_or_ge w q with hlt | hge
+    · have h1 : fl w ≤ fl q := mono _ _ (le_of_lt hlt)
+      have h2 : fl w = fl q := le_antisymm h1 h
+      exact absurd (inj w q hw hq h2) (ne_of_lt hlt)
+    · exact hge
+  · intro h
+    exact mono _ _ h
+
+/-- threshold = a float that is the float of no ratio at hand -/
+theorem C10_threshold_off_rounded_values (fl : Rat → Rat) (mono : ∀ a b, a ≤ b → fl a ≤ fl b)
+    (s : Rat) (hs : fl s = s) (w : Rat) (hne : fl w ≠ s) :
+    s ≤ fl w ↔ s ≤ w := by
+  constructor
+  · intro h
+    rcases lt_or_ge w s with hlt | hge
+    · have h1 : fl w ≤ fl s := mono _ _ (le_of_lt hlt)
+      rw [hs] at h1
+      exact absurd (le_antisymm h1 h) hne
+    · exact hge
+  · intro h
+    have h1 := mono _ _ h
+    rwa [hs] at h1
+
+/-- non-vacuity (the hypotheses are satisfiable: the identity is a monotone rounding): the threshold 3/5 + 2^-53, one
+ulp above the ratio 3/5, is the rounded value of no ratio at hand and does not accept 3/5 -/
+example : ((3 : Rat) / 5 + 1 / 9007199254740992 ≤ id ((3 : Rat) / 5)) ↔ ((3 : Rat) / 5 + 1 / 9007199254740992 ≤ 3 / 5) :=
+  C10_threshold_off_rounded_values id (fun _ _ h => h) _ rfl _ (by norm_num)
+
+example : (id ((3 : Rat) / 5) ≤ id ((2 : Rat) / 3)) ↔ ((3 : Rat) / 5 ≤ 2 / 3) :=
+  C10_threshold_on_rounded_value id (fun _ _ h => h) (fun _ => True) (fun _ _ _ _ h => h) _ _ trivial trivial
